@@ -134,6 +134,7 @@ func c19HttpTable(r *Run) {
 		fc := &c19Clock{clk: clk, interval: interval}
 		var objs []goat.RpcReadWriter
 		var items, outs []string
+		idledOut := 0 // objects created before the last idle-out: their readers fail from then on
 		done, cancelDone := context.WithCancel(context.Background())
 		cancelDone()
 		length := 2 + rng.Intn(r.Scale(8, 14))
@@ -171,6 +172,25 @@ func c19HttpTable(r *Run) {
 					break
 				}
 				items, outs = append(items, "T"), append(outs, "ok")
+				idledOut = len(objs)
+			case op == 5:
+				// a Write whose envelope cannot be encoded (invalid UTF-8 in a string field): an error, nothing else
+				j := rng.Intn(len(objs))
+				item := fmt.Sprintf("B%d", j)
+				r.Progress("http.table", strings.Join(append(items, item), " "))
+				var err error
+				if !within(hangTimeout, func() {
+					err = objs[j].Write(context.Background(), &Rpc{Id: 1, Header: &goatorepo.RequestHeader{Method: "/svc/m", Source: "caf\xe9", Destination: "x"}})
+				}) {
+					r.Violate("http.table.hang", "ops", "a Write of an envelope the codec rejects did not return", strings.Join(append(items, item), " "), goroutineDump(), nil)
+					ok = false
+					break
+				}
+				out := "err"
+				if err == nil {
+					out = "nil"
+				}
+				items, outs = append(items, item), append(outs, out)
 			case op < 8:
 				j := rng.Intn(len(objs))
 				item := fmt.Sprintf("W%d", j)
@@ -205,6 +225,10 @@ func c19HttpTable(r *Run) {
 				out := "pending"
 				if err != context.DeadlineExceeded {
 					out = "closed"
+				}
+				if j < idledOut && out == "pending" {
+					r.Violate("http.table.idle", "ops", "a connection that was idle past its timeout did not fail its reader", strings.Join(append(items, item), " "), "Read still waiting", "readCh closed")
+					ok = false
 				}
 				items, outs = append(items, item), append(outs, out)
 			}
